@@ -94,6 +94,10 @@ def run_isolated(mod, cases, log):
     return results
 
 
+def proof_failed(ok, proof_ok, gate):
+    return (not ok) or (not proof_ok) or bool(gate)
+
+
 def known_match(known, prop, case, what):
     for k in known:
         if k["property"] != prop:
@@ -213,6 +217,28 @@ def main():
                     "model": {"file": "generated case files for %s" % prop, "theorem": "correspondence run",
                               "error": errors[:3]}}
             violations.append((C.write_replay(prop, body), True, "correspondence run failed inside Coq"))
+
+        # ---- 4b. model and implementation disagree somewhere, but no input of this run violates the property on the
+        #          implementation: search further inputs (implementation + oracle only) for a concrete failing one
+        if (failing or proof_failed(ok, proof_ok, gate)) and not oracle_viol and not getattr(mod, "ISOLATE", False):
+            rng2 = random.Random(seed * 7919 + 17 + sum(map(ord, prop)))
+            budget = min(3 * mod.N[tier], 3000)
+            t_search = time.time()
+            for j in range(budget):
+                if time.time() - t_search > 120:
+                    break
+                try:
+                    c2 = mod.gen(rng2, j, tier)
+                    o2, v2 = run_one(mod, c2)
+                except Exception as e:
+                    log.append("search crashed: %r" % e)
+                    break
+                if v2:
+                    cases.append(c2)
+                    outs.append(o2)
+                    oracle_viol[len(cases) - 1] = v2
+                    log.append("search found a failing input after %d extra cases" % (j + 1))
+                    break
 
         # ---- 5. verdicts -----------------------------------------------------
         reported = 0
